@@ -1303,15 +1303,33 @@ Section Proofs.
   Qed.
 
   (* comparisons *)
-  Lemma list_eqb_eq : forall xs ys, list_eqb xs ys = true <-> xs = ys.
+  Lemma list_eqb_Forall2 : forall (eq : V -> V -> bool) xs ys,
+    list_eqb eq xs ys = true <-> Forall2 (fun x y => eq x y = true) xs ys.
   Proof.
-    induction xs as [|x xs IH]; intros [|y ys]; cbn; split; intro H; try discriminate; auto.
-    - apply andb_true_iff in H. destruct H as (H1 & H2). apply Z.eqb_eq in H1. apply IH in H2. congruence.
-    - inversion H; subst. rewrite Z.eqb_refl. cbn. apply IH. reflexivity.
+    intro eq. induction xs as [|x xs IH]; intros [|y ys]; cbn; split; intro H;
+      try discriminate; try (inversion H; fail); auto.
+    - apply andb_true_iff in H. destruct H as (H1 & H2). constructor; [exact H1|apply IH; exact H2].
+    - inversion H; subst. apply andb_true_iff. split; [assumption|apply IH; assumption].
+  Qed.
+
+  Lemma list_eqb_length : forall (eq : V -> V -> bool) xs ys,
+    list_eqb eq xs ys = true -> length xs = length ys.
+  Proof.
+    intros eq xs ys H. apply list_eqb_Forall2 in H.
+    induction H; cbn; [reflexivity|congruence].
+  Qed.
+
+  (* for element types whose operator== is equality of values *)
+  Lemma list_eqb_eq : forall (eq : V -> V -> bool), (forall x y, eq x y = true <-> x = y) ->
+    forall xs ys, list_eqb eq xs ys = true <-> xs = ys.
+  Proof.
+    intros eq Heq xs ys. rewrite list_eqb_Forall2. split; intro H.
+    - induction H as [|x y xs ys H1 _ IH]; [reflexivity|]. apply Heq in H1. congruence.
+    - subst ys. induction xs as [|x xs IH]; constructor; [apply Heq; reflexivity|exact IH].
   Qed.
 
   Lemma compare_ok : forall a b xs ys, sv_inv P a -> sv_inv P b -> abs a = Some xs -> abs b = Some ys ->
-    sv_eq a b = Ok (list_eqb xs ys) /\ sv_lt a b = Ok (lex_ltb xs ys).
+    sv_eq P a b = Ok (list_eqb (peq P) xs ys) /\ sv_lt P a b = Ok (lex_ltb (plt P) xs ys).
   Proof.
     intros a b xs ys Ha Hb Hx Hy.
     destruct (inv_rep _ Ha) as (xs' & Hrx). destruct (inv_rep _ Hb) as (ys' & Hry).
@@ -1321,8 +1339,8 @@ Section Proofs.
     rewrite (rep_size _ _ Hrx), (rep_size _ _ Hry).
     destruct (length xs =? length ys) eqn:E; [reflexivity|].
     apply Nat.eqb_neq in E. f_equal. symmetry.
-    destruct (list_eqb xs ys) eqn:E2; [|reflexivity].
-    apply list_eqb_eq in E2. subst. congruence.
+    destruct (list_eqb (peq P) xs ys) eqn:E2; [|reflexivity].
+    apply list_eqb_length in E2. congruence.
   Qed.
 
   Lemma init_inv : Inv P (init P).
